@@ -26,7 +26,7 @@ Classification of failures of VALID streams: `haproxy-short-first-segment` only 
 was closed by the very first segment, that segment is shorter than the wrapper's version-sniffing
 threshold (16 bytes for v2, 8 for v1) and the same stream delivered whole is handled correctly;
 `haproxy-v1-bare-unknown-rejected` only for the exact line `PROXY UNKNOWN` (no trailing space) that
-is rejected in every segmentation; INVALID: `haproxy-v1-overlong-line-accepted` only when the line
+is rejected even when delivered whole; INVALID: `haproxy-v1-overlong-line-accepted` only when the line
 is longer than 107 bytes, its first six fields are a well-formed TCP4/TCP6/UNKNOWN line and the
 CRLF arrived in the same segment that pushed the buffer beyond 107 bytes.  Anything else keeps a
 generic key.
@@ -437,11 +437,11 @@ def check_case(ctx, stream, cuts, verdict, label, whole_ok=None):
         if why == "valid-header-closed" and res["closed_at"] == 0 and not res["app"]:
             first = len(segs[0])
             thr = 16 if stream[:12] == SIG else 8
-            if stream[:hlen] == b"PROXY UNKNOWN\r\n":
-                key = "haproxy-v1-bare-unknown-rejected"
-            elif first < thr and whole_ok:
+            if first < thr and whole_ok:
                 key = "haproxy-short-first-segment"
-        elif why == "valid-header-closed" and stream[:hlen] == b"PROXY UNKNOWN\r\n" and not res["app"]:
+            elif stream[:hlen] == b"PROXY UNKNOWN\r\n" and not whole_ok:
+                key = "haproxy-v1-bare-unknown-rejected"
+        elif why == "valid-header-closed" and stream[:hlen] == b"PROXY UNKNOWN\r\n" and not res["app"] and not whole_ok:
             key = "haproxy-v1-bare-unknown-rejected"
         ctx.violation(key, "valid PROXY header not honoured: %s" % why, wit)
     return dict(res, ok=ok)
